@@ -162,15 +162,14 @@ def Obj.mulInt : Obj α → Int → Except PyErr (Obj α)
   | .plain t a, n => .ok (.plain t (a.rep n.toNat))
   | _, _ => .error .type
 
-/-- in-place methods keep the object (and its class): `append`, `extend` / `+=`, `*=` -/
+/-- in-place methods keep the object (and its class): `append`, `extend` / `+=`.  (`obj *= n` is NOT in
+place: the class defines `__mul__`, CPython takes that before the sequence slot of `list`, so it is
+`obj = obj * n`, i.e. `Obj.mulInt`.) -/
 def FL.append : FL α → FL α → Option (FL α)
   | .node k a, x => some (.node k (a ++ .cons x .nil))
   | _, _ => none
 def FL.extend : FL α → FLs α → Option (FL α)
   | .node k a, b => some (.node k (a ++ b))
-  | _, _ => none
-def FL.imul : FL α → Int → Option (FL α)
-  | .node k a, n => some (.node k (a.rep n.toNat))
   | _, _ => none
 
 /-- `obj[i:j]`, `list(obj)`, `obj.copy()`: plain lists (`list` methods that are not overloaded) -/
